@@ -81,3 +81,25 @@ Proof.
   assert (Hh : 0 < 1 / (2 * dx)) by (apply Rdiv_lt_0_compat; lra).
   apply Rabs_le. split; nra.
 Qed.
+
+(* under the sampling guard the radicand of the angular-spectrum phase is non-negative at every frequency c/dx with |c| <= 1/2
+   (the library's grids: c = -1/2 + k/(n-1), or the inset grid of the band-limited kernel): the phase is real and the
+   sample is a pure phasor; outside the guard Coq's sqrt of a negative number is 0 while the code returns NaN, so the
+   unit-modulus lemmas are only meaningful together with these *)
+Lemma rad_as_nonneg lam dx a b : 0 < lam -> 0 < dx -> lam * lam <= 2 * (dx * dx) -> a * a <= / 4 -> b * b <= / 4 ->
+  0 <= 1 - (lam * (a / dx)) ^ 2 - (lam * (b / dx)) ^ 2.
+Proof.
+  intros Hl Hd Hg Ha Hb.
+  assert (Hq : 0 < lam * lam / (dx * dx) <= 2).
+  { split; [apply Rdiv_lt_0_compat; nra|]. apply Rmult_le_reg_r with (dx * dx); [nra|]. unfold Rdiv. rewrite Rmult_assoc, Rinv_l by nra. lra. }
+  replace (1 - (lam * (a / dx)) ^ 2 - (lam * (b / dx)) ^ 2) with (1 - (lam * lam / (dx * dx)) * (a * a + b * b)) by (field; lra).
+  nra.
+Qed.
+Lemma rad_bl_nonneg lam dx a b : 0 < lam -> 0 < dx -> lam * lam <= 2 * (dx * dx) -> a * a <= / 4 -> b * b <= / 4 ->
+  0 <= 1 / (lam ^ 2) - ((a / dx) ^ 2 + (b / dx) ^ 2).
+Proof.
+  intros Hl Hd Hg Ha Hb.
+  pose proof (rad_as_nonneg lam dx a b Hl Hd Hg Ha Hb) as H.
+  replace (1 / lam ^ 2 - ((a / dx) ^ 2 + (b / dx) ^ 2)) with ((1 - (lam * (a / dx)) ^ 2 - (lam * (b / dx)) ^ 2) / (lam * lam)) by (field; lra).
+  apply Rmult_le_pos; [exact H | apply Rlt_le, Rinv_0_lt_compat; nra].
+Qed.
